@@ -37,6 +37,8 @@ def run(model, tier="quick"):
     formula_check(res, model, "AaveV3Market.ltv", R.REF_LTV, "ltv = total debt value / total supply value (inf without supplies)", opaque=views)
     formula_check(res, model, "AaveV3CoreLib.get_apy", R.REF_GET_APY, "apy = value-weighted mean of the per-token APYs", opaque=views)
     formula_check(res, model, "AaveV3CoreLib.safe_div_zero", R.REF_SAFE_DIV, "a/b, 0 when b is 0")
+    formula_check(res, model, "AaveV3CoreLib.safe_rounding", R.REF_SAFE_ROUNDING,
+                  "reported risk figures: the value quantized to the step in the context's (half-even) rounding, inf / nan passed through")
     formula_check(res, model, "AaveV3Market.total_apy", R.REF_TOTAL_APY, "net apy = (supply apy*supplies - borrow apy*debts)/(supplies - debts)",
                   opaque=views)
     vop = ["get_supply", "get_borrow", "supplies_value", "borrows_value", "get_apy", "supplies"]
